@@ -28,6 +28,7 @@ type Excl struct {
 	ZeroToken  bool `json:"zero_token,omitempty"`  // no evidence whose penalty amount is 0 (zero-penalty-divergence)
 	NoRefund   bool `json:"no_refund,omitempty"`   // no transaction that can earn an EVM gas refund (C07 refund-minted)
 	NoEmpty    bool `json:"no_empty,omitempty"`    // no withdrawal that empties (and thereby deletes) a validator (C07 deleted-validator-dust)
+	NoNegRec   bool `json:"no_neg_rec,omitempty"`  // no delegation unbind after a self-withdrawal of the same validator in one period (C07 negative-pending-record)
 }
 
 // StepResult is the outcome of building one block on A (not yet imported on B).
@@ -98,8 +99,9 @@ func (w *World) Step(bs BlockSpec, ex Excl) (*StepResult, error) {
 	}
 	cb := elig[mod(bs.CB, len(elig))]
 	w.NoEmpty = ex.NoEmpty
+	w.NoNegRec = ex.NoNegRec
 	if period := num / w.yp.StakingTrieFrequency; period != w.period {
-		w.period, w.withdrawn = period, map[common.Address]bool{}
+		w.period, w.withdrawn, w.selfWithdrawn = period, map[common.Address]bool{}, map[common.Address]bool{}
 	}
 	vals := SortedVals(st)
 	// A network without online stake is dead (no sortition weight at all); the end-block
@@ -231,7 +233,11 @@ func (w *World) Step(bs BlockSpec, ex Excl) (*StepResult, error) {
 	if len(adv) > 0 {
 		opt.SlashData, opt.Replay, res.AdvSlash = EncodeSlashData(adv), true, true
 	}
-	b, err := a.Build(cb, txs, opt)
+	build := a.Build
+	if w.Builder != nil {
+		build = w.Builder
+	}
+	b, err := build(cb, txs, opt)
 	if err != nil {
 		return nil, fmt.Errorf("build #%d: %v", num, err)
 	}
